@@ -94,6 +94,19 @@ CHECKS.update({
             TRUST_HTTP, '4.6'),
 })
 
+CHECKS.update({
+    'C05': ('exploration',
+            'HTTP-boundary runtime monitor: lxml well-formedness + independent ISO/IEC 23009-1 rule set on every manifest/patch response, benign-vs-hostile skeleton differential with hostile strings stored through the real management endpoint or sent as query/Host values',
+            'All nine templates plus the patch endpoint, single- and multi-period, generated option vectors and clocks; each case rendered with '
+            'benign and with hostile strings at eleven locations; the element skeleton must not change and the string must come back verbatim.',
+            TRUST_HTTP, '4.5'),
+    'C07': ('exploration',
+            'runtime monitor with a recording wrapper on the real calculate_options: containers captured at the manifest and at the media endpoint (reached through the URL the manifest wrote) are compared field by field; independent query-string parse for the usage mask; per-option to_string/from_string round trip through URL decoding',
+            'Registry-driven: every option discovered at run time x generated legal values for the unit layer; thousands of manifests with generated '
+            'option subsets, one init + one media URL per AdaptationSet, for the integration layer.',
+            TRUST_HTTP, '4.7'),
+})
+
 NOT_YET = {}
 
 
